@@ -23,7 +23,7 @@ sys.path.insert(0, str(__import__("pathlib").Path(__file__).resolve().parent))
 from proto_common import *  # noqa
 
 SEEDS = {"A": base64.b64encode(b"seed-A-seed-A").decode().rstrip("="), "B": base64.b64encode(b"seed-B-seed-B").decode().rstrip("=")}
-BASE = {"tiny": False, "lit": False, "seed": "none", "gogarble": "all", "ctrl": False, "tags": False, "xname": False, "xval": "none"}
+BASE = {"tiny": False, "lit": False, "seed": "none", "gogarble": "all", "ctrl": False, "tags": False, "tagsrt": False, "xname": False, "xval": "none"}
 
 
 def C(**kw):
@@ -34,7 +34,7 @@ def C(**kw):
 
 CFGS = {
     "Base": C(), "CTiny": C(tiny=True), "CLit": C(lit=True), "CSeedA": C(seed="A"), "CSeedB": C(seed="B"),
-    "CSub": C(gogarble="sub"), "CCtrl": C(ctrl=True), "CTags": C(tags=True),
+    "CSub": C(gogarble="sub"), "CCtrl": C(ctrl=True), "CTags": C(tags=True), "CTagsRt": C(tagsrt=True),
     "CX1": C(xname=True, xval="v1"), "CX2": C(xname=True, xval="v2"),
     "CLitX1": C(lit=True, xname=True, xval="v1"), "CLitX2": C(lit=True, xname=True, xval="v2"), "CTinyLit": C(tiny=True, lit=True),
 }
@@ -60,16 +60,39 @@ def concretise(cfg):
         env["GOGARBLE"] = "example.com/proto/leaf,example.com/proto/mid"
     if cfg["ctrl"]:
         env["GARBLE_EXPERIMENTAL_CONTROLFLOW"] = "1"
-    if cfg["tags"]:
-        go.append("-tags=prototag")
+    tags = (["prototag"] if cfg["tags"] else []) + (["debuglog"] if cfg.get("tagsrt") else [])   # debuglog selects other files of package runtime
+    if tags:
+        go.append("-tags=" + ",".join(tags))
     if cfg["xval"] != "none":
         go.append("-ldflags=-X=main.version=" + cfg["xval"])
     return g, env, go
 
 
-def edit_source(src: Path, p: str, n: int):
+def edit_source(src: Path, p: str, n: int, kind: str = "api"):
+    """api: a new exported declaration (export data changes); body: only the inside of a function changes -
+    for leaf the body of Peek starts to reflect on its argument (new reflection fact, same export data)."""
     f = {"leaf": src / "leaf" / "leaf.go", "mid": src / "mid" / "mid.go", "main": src / "main.go"}[p]
-    f.write_text(f.read_text() + f"\nvar Edit{n}{p} = {n}\n")
+    text = f.read_text()
+    if kind == "api":
+        f.write_text(text + f"\nvar Edit{n}{p} = {n}\n")
+    elif p == "leaf":
+        if "// PEEK-BODY" not in text:
+            raise Inconclusive("fixture: leaf.Peek marker not found")
+        f.write_text(text.replace('return "-" // PEEK-BODY', f'return reflect.TypeOf(v).Name() + "/" + reflect.TypeOf(v).Field(0).Name // edit {n}'))
+    elif p == "mid":
+        f.write_text(text.replace("b - a\n}", f"b - a + 0*{n}\n}}", 1))
+    else:
+        f.write_text(text.replace('"main-record"', f'"main-record-{n}"', 1))
+
+
+def pkgname(path: str):
+    if path == "internal/abi":
+        return "abi"
+    if path == "runtime":
+        return "rt"
+    if path.startswith("example.com/proto"):
+        return path.replace("example.com/proto/", "").replace("example.com/proto", "main")
+    return None
 
 
 def probe_key_fields(work, chk):
@@ -120,11 +143,11 @@ class Replayer:
         self.results = []    # (cfg name, srcver tuple, sha, stdout)
         self.last = None
 
-    def edit(self, p):
+    def edit(self, p, kind="api"):
         self.srcver[p] += 1
-        self.edits.append(p)
-        edit_source(self.src, p, len(self.edits))
-        self.steps.append({"ev": "edit", "p": p})
+        self.edits.append(p if kind == "api" else p + ":body")
+        edit_source(self.src, p, len(self.edits), kind)
+        self.steps.append({"ev": "edit", "p": p, "kind": kind})
         self.last = None
 
     def build(self, cfg):
@@ -134,11 +157,9 @@ class Replayer:
         trace = self.root / f"trace{self.n}.ndjson"
         r = self.sb.garble(g + ["build"] + go + ["-o", str(out), "."], cwd=self.src, env=env, trace=trace, timeout=1500)
         evs = read_trace(trace)
-        compiled = sorted({e["pkg"].replace("example.com/proto/", "").replace("example.com/proto", "main")
-                           for e in evs if e["ev"] == "compile-start" and e["pkg"].startswith("example.com/proto")})
+        compiled = sorted({pkgname(e["pkg"]) for e in evs if e["ev"] == "compile-start" and pkgname(e["pkg"])})
         tools = [e for e in evs if e["ev"] == "tool-run" and e.get("tool") in ("compile", "asm")]
-        recomputed = sorted({e["pkg"].replace("example.com/proto/", "").replace("example.com/proto", "main")
-                             for e in evs if e["ev"] == "pkgcache-put" and e["pkg"].startswith("example.com/proto")})
+        recomputed = sorted({pkgname(e["pkg"]) for e in evs if e["ev"] == "pkgcache-put" and pkgname(e["pkg"]) in ("leaf", "mid", "main")})
         self.steps.append({"ev": "build", "cfg": cfg, "compiled": compiled, "recomputed": recomputed})
         res = {"cfg": cfg_name(cfg), "srcver": dict(self.srcver), "rc": r.returncode, "compiled": compiled, "tool_runs": len(tools),
                "stderr": r.stderr[-3000:], "edits": list(self.edits)}
@@ -161,7 +182,7 @@ def reference_for(ref_base, lock, memo, tool, cfg, edits):
     root = ref_base / ("ref-" + str(abs(hash(key)) % 10 ** 10))
     src = write_proto(root / "src")
     for i, p in enumerate(edits):
-        edit_source(src, p, i + 1)
+        edit_source(src, p.split(":")[0], i + 1, "body" if p.endswith(":body") else "api")
     sb = Sandbox(root / "sb", template=True)
     copytree(tool, sb.gcache / "tool")
     g, env, go = concretise(cfg)
@@ -191,27 +212,49 @@ def main(tier, seed):
     chk.extra["recorded_key_fields"] = key_fields
     chk.extra["x_names_keyed_with_literals"] = xkeyed
     chk.extra["binary_id_keyed"] = hasbin
-    cfgtext = (SPEC / "cfg" / "BuildCache-c06.cfg").read_text()
-    cfgtext = re.sub(r"KeyFields = \{.*\}", "KeyFields = {" + ", ".join(json.dumps(f) for f in key_fields) + "}", cfgtext)
-    cfgtext = cfgtext.replace("XNameKeyed = FALSE", "XNameKeyed = " + ("TRUE" if xkeyed else "FALSE"))
-    if tier == "thorough":
-        cfgtext = cfgtext.replace("MaxEdits = 1", "MaxEdits = 2")
-    tw = mkscratch("c06-tlc")
-    r = tlc("BuildCache", "BuildCache-gen.cfg", workdir=tw, files={"BuildCache-gen.cfg": cfgtext}, timeout=2400,
-            extra=["-dumpTrace", "json", str(tw / "cex.json")])
-    if r.error:
-        raise Inconclusive(f"TLC failed on BuildCache: {r.error}\n{r.out[-2000:]}")
-    chk.add_tlc(r)
-    lead = None
-    if r.violated:
-        cex = json.loads((tw / "cex.json").read_text())["counterexample"]["state"][-1][1]["hist"]
-        lead = cex
-        chk.extra["tlc_lead"] = {"invariant": r.violated, "history": [a.get("cfg") and cfg_name(a["cfg"]) or a for a in cex]}
+    def gen_cfg(name):
+        t = (SPEC / "cfg" / name).read_text()
+        t = re.sub(r"KeyFields = \{.*\}", "KeyFields = {" + ", ".join(json.dumps(f) for f in key_fields) + "}", t)
+        t = re.sub(r"XNameKeyed = (TRUE|FALSE)", "XNameKeyed = " + ("TRUE" if xkeyed else "FALSE"), t)
+        return t
+
+    def run_model(name, edits2=False):
+        t = gen_cfg(name)
+        if edits2:
+            t = t.replace("MaxEdits = 1", "MaxEdits = 2")
+        tw = mkscratch("c06-tlc")
+        r = tlc("BuildCache", "BuildCache-gen.cfg", workdir=tw, files={"BuildCache-gen.cfg": t}, timeout=2400,
+                extra=["-dumpTrace", "json", str(tw / "cex.json")])
+        if r.error:
+            raise Inconclusive(f"TLC failed on BuildCache/{name}: {r.error}\n{r.out[-2000:]}")
+        chk.add_tlc(r)
+        cex = None
+        if r.violated:
+            cex = json.loads((tw / "cex.json").read_text())["counterexample"]["state"][-1][1]["hist"]
+        return r, cex
+
+    def describe(h):
+        return [cfg_name(a["cfg"]) if a["a"] == "build" else f"edit-{a.get('kind', 'api')}:{a['p']}" for a in h if a["a"] in ("build", "edit")]
+
+    # (i) the model with the recorded key fields, under the what-if that the reflection-fact entries were keyed
+    #     by the whole import closure: any counterexample is a NEW staleness (a key that misses an input)
+    r, lead = run_model("BuildCache-c06.cfg", edits2=(tier == "thorough"))
+    if lead:
+        chk.extra["tlc_lead"] = {"invariant": r.violated, "history": describe(lead)}
         log(f"TLC lead ({r.violated}): {chk.extra['tlc_lead']['history']}")
+    # (ii) the model as the code is (entries keyed by the package's own GarbleActionID): TLC's counterexample
+    #      is the lead behind finding F19; it is replayed below like any other history
+    r2, lead_asis = run_model("BuildCache-c06-asis.cfg")
+    chk.extra["tlc_lead_asis"] = {"invariant": r2.violated, "history": describe(lead_asis) if lead_asis else None}
+    # (iii) what-if: the magic derived from runtime's action ID (the code before the fix of F20) must be rejected
+    r3, lead_magic = run_model("BuildCache-c06-magicrt.cfg")
+    chk.extra["whatif_magic_from_runtime_violates"] = r3.violated
+    if not r3.violated:
+        raise Inconclusive("BuildCache.tla what-if (magic from runtime) is no longer rejected: the invariants do not bite")
 
     # ---- B2: histories on real caches
     tool = make_linker_cache(work)
-    names = ["Base", "CTiny", "CLit", "CSeedA", "CSeedB", "CSub", "CCtrl", "CTags", "CLitX1", "CLitX2", "CX1"]
+    names = ["Base", "CTiny", "CLit", "CSeedA", "CSeedB", "CSub", "CCtrl", "CTags", "CTagsRt", "CLitX1", "CLitX2", "CX1"]
     if tier == "thorough":
         names += ["CX2", "CTinyLit"]
     order = list(names)
@@ -220,8 +263,17 @@ def main(tier, seed):
         "fwd": [("build", n) for n in order] + [("edit", "leaf"), ("build", order[0]), ("build", order[1]), ("build", order[1])],
         "rev": [("build", n) for n in reversed(order)] + [("edit", "leaf"), ("build", order[1]), ("build", order[0]), ("build", order[0])],
     }
+    def as_history(h):
+        return [("build", cfg_name(a["cfg"])) if a["a"] == "build" else ("edit", a["p"], a.get("kind", "api")) for a in h if a["a"] in ("build", "edit")]
     if lead:
-        histories["lead"] = [("build", cfg_name(a["cfg"])) if a["a"] == "build" else ("edit", a["p"]) for a in lead if a["a"] in ("build", "edit")]
+        histories["lead"] = as_history(lead)
+    if lead_asis:
+        histories["lead-asis"] = as_history(lead_asis)
+    # the magic what-if's history is replayed on the real code too: it must NOT reproduce (regression guard for F20)
+    if lead_magic:
+        histories["lead-magic"] = as_history(lead_magic)
+    # body edit of an indirect dependency under the default configuration and under -seed
+    histories["bodyedit"] = [("build", "Base"), ("build", "CSeedA"), ("edit", "leaf", "body"), ("build", "Base"), ("build", "CSeedA")]
     if tier == "thorough":
         for i in range(3):
             h = []
@@ -235,11 +287,11 @@ def main(tier, seed):
     def replay(name):
         rep = Replayer(chk, work, tool, None, name)
         reps[name] = rep
-        for kind, arg in histories[name]:
-            if kind == "edit":
-                rep.edit(arg)
+        for step in histories[name]:
+            if step[0] == "edit":
+                rep.edit(step[1], step[2] if len(step) > 2 else "api")
             else:
-                rep.build(CFGS[arg])
+                rep.build(CFGS[step[1]])
         rmtree(rep.sb.root)
 
     parallel(replay, list(histories), workers=3)
@@ -252,7 +304,8 @@ def main(tier, seed):
     need = []
     for key, lst in groups.items():
         shas = {res.get("sha") for _, res in lst}
-        if tier == "thorough" or len(shas) > 1 or len(lst) == 1 or key[0] in ("Base",) or (lead and key[0] in [h[1] for h in histories.get("lead", [])]):
+        if tier == "thorough" or len(shas) > 1 or len(lst) == 1 or key[0] in ("Base",) or any(":body" in e for e in key[1]) \
+                or any(key[0] in [h[1] for h in histories.get(ln, [])] for ln in ("lead", "lead-asis", "lead-magic")):
             need.append(key)
     extra_refs = [k for k in groups if k not in need][:2]
     need += extra_refs
@@ -270,6 +323,7 @@ def main(tier, seed):
                     break
                 before.append(x["cfg"])
             witness = {"config": cfgname, "edits": list(edits), "history": hname, "built_before": sorted(set(before)),
+                       "body_edit_of_indirect_dep": any(e in ("leaf:body",) for e in edits) and cfgname in before and CFGS[cfgname]["gogarble"] == "all",
                        "lit_and_xname_changed": bool(CFGS[cfgname]["lit"] and any(CFGS[b]["lit"] and CFGS[b]["xname"] != CFGS[cfgname]["xname"] for b in before))}
             chk.case([cfgname, edits, sorted(set(before))], sample=witness if len(before) in (1, 5) else None, nontrivial=bool(before))
             files = {"history.json": json.dumps(histories[hname]), "result.json": json.dumps({k: v for k, v in res.items()}, default=str)}
@@ -308,7 +362,7 @@ def main(tier, seed):
             chk.extra.setdefault("rejected_traces", []).append(name)
             (REPLAYS / "C06").mkdir(parents=True, exist_ok=True)
             (REPLAYS / "C06" / f"rejected-{tier}-{seed}-{name}.ndjson").write_text(nd)
-    chk.extra["histories"] = {k: [a[1] for a in v] for k, v in histories.items()}
+    chk.extra["histories"] = {k: [":".join(a[1:]) for a in v] for k, v in histories.items()}
     chk.extra["cold_references"] = len(refs_memo)
     return chk.finish()
 
